@@ -20,6 +20,16 @@ def Dim.Differs (thr : Rat) (a b : Dim) : Prop :=
   thr < absR (a.m - b.m) ∨ thr < absR (a.kg - b.kg) ∨ thr < absR (a.s - b.s) ∨ thr < absR (a.A - b.A) ∨
   thr < absR (a.K - b.K) ∨ thr < absR (a.mol - b.mol) ∨ thr < absR (a.cd - b.cd)
 
+/-- every exponent of the one vector is within `thr` of the same exponent of the other (the negation of `Dim.Differs`);
+for `thr = 0` this is equality, and it is *not* transitive for `thr > 0` -/
+def Dim.Within (thr : Rat) (a b : Dim) : Prop :=
+  absR (a.m - b.m) ≤ thr ∧ absR (a.kg - b.kg) ≤ thr ∧ absR (a.s - b.s) ≤ thr ∧ absR (a.A - b.A) ≤ thr ∧
+  absR (a.K - b.K) ≤ thr ∧ absR (a.mol - b.mol) ≤ thr ∧ absR (a.cd - b.cd) ≤ thr
+
+/-- the operand `b` is one a quantity `a` combines with: a quantity whose exponents are all within the threshold of
+those of `a`, or a bare zero -/
+def Compatible (thr : Rat) (a b : Q) : Prop := (IsQty b ∧ Dim.Within thr a.dim b.dim) ∨ BareZero b
+
 /-- `f` applied to SI magnitudes: scalar with scalar; a scalar against every entry of an array; arrays of one
 length entry by entry (`none`: arrays of different lengths) -/
 def onMagnitudes {α} (f : Rat → Rat → α) : Num → Num → Option (α ⊕ List α)
